@@ -6,16 +6,22 @@
 (* pair's single successor, so the work spreads over all workers.             *)
 EXTENDS EC
 
-CONSTANT Iterated      \* TRUE: also compare SMul with the recursive Mul for every k in -2N..2N (small curves;
+CONSTANT Scope,        \* "full": all ordered pairs of points; "points": single-point lemmas only (mid-size curves
+                       \* used for traces); "assume": only the ASSUMEs (curve sanity: cyclic of order N, PointsForX)
+         Iterated      \* TRUE: also compare SMul with the recursive Mul for every k in -2N..2N (small curves;
                        \* on the others MulStep is the induction step of the same statement)
 
 VARIABLES p, q, ph
 vars == <<p, q, ph>>
 
-ASSUME CurveOk == P % 2 = 1 /\ N % 2 = 1 /\ NonSingular /\ Cyclic /\ InvTabOk
-ASSUME PfxOk   == \A x \in Fp : PointsForXOk(x)
+\* curve-level lemmas, evaluated once (in the state p = q = Inf; TLC evaluates ASSUMEs without its
+\* cache of constant definitions, which makes them many times slower there)
+CurveOk == P % 2 = 1 /\ N % 2 = 1 /\ NonSingular /\ Cyclic /\ InvTabOk
+PfxOk   == \A x \in Fp : PointsForXOk(x)
 
-Init == p \in Points /\ q \in Points /\ ph = 0
+Init == /\ p \in (IF Scope = "assume" THEN {Inf} ELSE Points)
+        /\ q \in (IF Scope = "full" THEN Points ELSE {Inf})
+        /\ ph = 0
 Check == ph = 0 /\ ph' = 1 /\ UNCHANGED <<p, q>>
 Next == Check
 Spec == Init /\ [][Next]_vars
@@ -27,5 +33,7 @@ PointLemmas == /\ Identity(p) /\ Inverse(p) /\ MulStep(p) /\ OrderKills(p) /\ Mu
                /\ MulHomomorphic(p, Inf)
                /\ (Iterated => MulIsIterated(p))
                /\ \A b \in 0..(N - 1) : SMul(b, G) = p => BlindingCancels(b)   \* every blinding factor, once
-GroupLaw == ph = 1 => PairLemmas /\ (q = Inf => PointLemmas)
+GroupLaw == ph = 1 => /\ PairLemmas
+                      /\ (q = Inf => PointLemmas)
+                      /\ (p = Inf /\ q = Inf => CurveOk /\ PfxOk)
 =============================================================================
